@@ -177,7 +177,28 @@ func treeVals(p proto.Protocol) []Val {
 			l2.AddChild(shared)
 			return rootOf(l1, l2, brigodier.Literal("ä€😀").Build())
 		}),
+		// node count and child count on both sides of the one-byte VarInt (127 / 128 children under the root, one of
+		// them with 128 children of its own: 257 nodes)
+		vf("tree:wide-127", func() any { return wideTree(127, 0) }),
+		vf("tree:wide-128+128", func() any { return wideTree(128, 128) }),
 	}
+}
+
+func wideTree(n, inner int) *brigodier.RootCommandNode {
+	var kids []brigodier.CommandNode
+	for i := 0; i < n; i++ {
+		lb := brigodier.Literal(fmt.Sprintf("cmd%03d", i))
+		if i%2 == 0 {
+			lb.Executes(placeholderCmd)
+		}
+		if i == 0 {
+			for j := 0; j < inner; j++ {
+				lb.Then(brigodier.Argument(fmt.Sprintf("arg%03d", j), brigodier.Bool))
+			}
+		}
+		kids = append(kids, lb.Build())
+	}
+	return rootOf(kids...)
 }
 
 // DescribeArgType renders an argument type structurally (no pointers), including the unexported
